@@ -11,6 +11,7 @@ SRC=/tmp/seed/$ID-out/$V
 [ -f "$SRC/patch.diff" ] || SRC=/tmp/seed6/$ID-out/$V
 [ -f "$SRC/patch.diff" ] || SRC=/tmp/seed7/$ID-out/$V
 [ -f "$SRC/patch.diff" ] || SRC=/tmp/seed8/$ID-out/$V
+[ -f "$SRC/patch.diff" ] || SRC=/tmp/seed9/$ID-out/$V
 [ -f "$SRC/patch.diff" ] || SRC=/verif/seeded/$ID-$V
 WT=/tmp/vw-$ID-$V
 git -C /repo worktree remove --force $WT 2>/dev/null
